@@ -7,6 +7,11 @@ usage: transforms.py <mode> [name=new ...]
   rename-locals    every function-local variable x -> x_loc
   rename-private   every private function / class _f -> _zz_f, everywhere
   rename-fields    textual rename of identifiers:  a=b c=d ...
+  fstrings         '..{}..'.format(a) -> f'..{a}..'
+  super0           super(Class, self) -> super()
+  literals         dict() -> {}, list() -> [], set([..]) -> set display / comprehension
+  annotate         every parameter and return annotated
+  ifswap           if c: X else: Y -> if not c: Y else: X
 
 A scratch copy of /repo/pyModelChecking is transformed, the 65 tests are run
 on it, then every check (quick, --repo <copy>); prints the checks that do not
@@ -140,6 +145,104 @@ def rename_fields(root, pairs):
         open(p, 'w').write(s)
 
 
+
+class _FStrings(ast.NodeTransformer):
+    """'..{}..'.format(a, b)  ->  f'..{a}..{b}..' (positional {} only)"""
+
+    def visit_Call(self, n):
+        self.generic_visit(n)
+        f = n.func
+        if isinstance(f, ast.Attribute) and f.attr == 'format' and \
+                isinstance(f.value, ast.Constant) and \
+                isinstance(f.value.value, str) and not n.keywords and \
+                not any(isinstance(a, ast.Starred) for a in n.args):
+            t = f.value.value
+            parts = t.split('{}')
+            if len(parts) - 1 != len(n.args) or '{' in ''.join(parts) or \
+                    '}' in ''.join(parts):
+                return n
+            vals = []
+            for i, lit in enumerate(parts):
+                if lit:
+                    vals.append(ast.Constant(lit))
+                if i < len(n.args):
+                    vals.append(ast.FormattedValue(value=n.args[i],
+                                                   conversion=-1))
+            return ast.copy_location(ast.JoinedStr(values=vals), n)
+        return n
+
+
+def fstrings(root):
+    for p in files(root):
+        t = _FStrings().visit(ast.parse(open(p).read()))
+        ast.fix_missing_locations(t)
+        open(p, 'w').write(ast.unparse(t) + '\n')
+
+
+def super0(root):
+    """super(Class, self).m(..) -> super().m(..) inside methods of Class
+    whose first parameter is self"""
+    for p in files(root):
+        s = open(p).read()
+        s = re.sub(r'super\((\w+), self\)', 'super()', s)
+        open(p, 'w').write(s)
+
+
+class _Literals(ast.NodeTransformer):
+    """dict() -> {}, list() -> [], set([..]) -> {..} / set comprehension"""
+
+    def visit_Call(self, n):
+        self.generic_visit(n)
+        if isinstance(n.func, ast.Name) and not n.keywords:
+            if n.func.id == 'dict' and not n.args:
+                return ast.copy_location(ast.Dict(keys=[], values=[]), n)
+            if n.func.id == 'list' and not n.args:
+                return ast.copy_location(ast.List(elts=[], ctx=ast.Load()), n)
+            if n.func.id == 'set' and len(n.args) == 1:
+                a = n.args[0]
+                if isinstance(a, ast.ListComp):
+                    return ast.copy_location(
+                        ast.SetComp(elt=a.elt, generators=a.generators), n)
+                if isinstance(a, ast.List) and a.elts and not any(
+                        isinstance(e, ast.Starred) for e in a.elts):
+                    return ast.copy_location(ast.Set(elts=a.elts), n)
+        return n
+
+
+class _Annotate(ast.NodeTransformer):
+    def visit_FunctionDef(self, n):
+        self.generic_visit(n)
+        for a in n.args.args + n.args.kwonlyargs:
+            if a.annotation is None and a.arg not in ('self', 'cls'):
+                a.annotation = ast.Constant('object')
+        if n.returns is None and n.name != '__init__':
+            n.returns = ast.Constant('object')
+        return n
+
+
+class _IfSwap(ast.NodeTransformer):
+    """if c: X else: Y  ->  if not c: Y else: X   (no elif)"""
+
+    def visit_If(self, n):
+        self.generic_visit(n)
+        if n.orelse and not (len(n.orelse) == 1 and
+                             isinstance(n.orelse[0], ast.If)):
+            t = n.test
+            if isinstance(t, ast.UnaryOp) and isinstance(t.op, ast.Not):
+                nt = t.operand
+            else:
+                nt = ast.UnaryOp(op=ast.Not(), operand=t)
+            return ast.copy_location(
+                ast.If(test=nt, body=n.orelse, orelse=n.body), n)
+        return n
+
+
+def _apply(root, T):
+    for p in files(root):
+        t = T().visit(ast.parse(open(p).read()))
+        ast.fix_missing_locations(t)
+        open(p, 'w').write(ast.unparse(t) + '\n')
+
 def main():
     mode = sys.argv[1]
     d = tempfile.mkdtemp(prefix='transf_', dir='/tmp')
@@ -155,6 +258,16 @@ def main():
             rename_private(root)
         elif mode == 'rename-fields':
             rename_fields(root, [a.split('=') for a in sys.argv[2:]])
+        elif mode == 'fstrings':
+            fstrings(root)
+        elif mode == 'super0':
+            super0(root)
+        elif mode == 'literals':
+            _apply(root, _Literals)
+        elif mode == 'annotate':
+            _apply(root, _Annotate)
+        elif mode == 'ifswap':
+            _apply(root, _IfSwap)
         else:
             sys.exit('unknown mode')
         r = subprocess.run(['/venv/bin/python', '-m', 'pytest', '-q', '-p',
